@@ -149,36 +149,50 @@ def c02(rep, tier):
                     okb = any(label is False and '>=' in show(cond) and 'size' in show(cond) for cond, label, cn in g.guards_of(ev))
                     B.check(okb, inst, 'guarded by tok_pos >= size() return', 'unguarded subscript', where)
                     continue
-                # every call site sits in a non-EOF case of switch(lookahead(es))
-                cs = [(g2, c2) for g2 in lib.functions_in('macro.cpp') for c2 in walk_all_exprs(g2['body'])
-                      if c2.get('k') == 'call' and c2.get('callee') == f['q']]
-                okc = bool(cs)
-                for g2, c2 in cs:
-                    gg = M.cfg(g2)
-                    ev2 = gg.ev(c2)
-                    good = False
-                    for cond, label, cn in gg.guards_of(ev2):
-                        if is_call(strip_casts(cond), 'lookahead') and isinstance(label, tuple) and label[0] == 'case':
-                            labs = label[1]
-                            if 'default' in labs:
-                                # default: all explicit labels of the switch must include T_EOF
-                                alll = [l for b in cn.succ if b.kind == 'branch' for l in b.label[1]]
-                                good = 'T_EOF' in alll
-                            else:
-                                good = 'T_EOF' not in labs
-                            # nothing may advance the cursor between the switch and the call
-                            adv = [x for x in gg.calls() if (x.e.get('callee') or '') in ('advance', 'match') and
-                                   cn.id in gg.dom[x.node.id] and gg.can_follow(x, ev2) and x is not ev2]
-                            if adv:
-                                good = False
-                    okc = okc and good
+                # every call site sits in a non-EOF case of switch(lookahead(es)) - directly, or the calling helper is itself only
+                # called from such cases and does not move the cursor before the call
+                def sites_non_eof(fq, depth=0):
+                    cs_ = [(g2, c2) for g2 in lib.functions_in('macro.cpp') for c2 in walk_all_exprs(g2['body'])
+                           if c2.get('k') == 'call' and c2.get('callee') == fq]
+                    if not cs_:
+                        return False, 0
+                    total = 0
+                    for g2, c2 in cs_:
+                        gg = M.cfg(g2)
+                        ev2 = gg.ev(c2)
+                        good = None
+                        for cond, label, cn in gg.guards_of(ev2):
+                            if is_call(strip_casts(cond), 'lookahead') and isinstance(label, tuple) and label[0] == 'case':
+                                labs = label[1]
+                                if 'default' in labs:
+                                    # default: all explicit labels of the switch must include T_EOF
+                                    alll = [l for b2 in cn.succ if b2.kind == 'branch' for l in b2.label[1]]
+                                    good = 'T_EOF' in alll
+                                else:
+                                    good = 'T_EOF' not in labs
+                                # nothing may advance the cursor between the switch and the call
+                                adv = [x for x in gg.calls() if (x.e.get('callee') or '') in ('advance', 'match') and
+                                       cn.id in gg.dom[x.node.id] and gg.can_follow(x, ev2) and x is not ev2]
+                                if adv:
+                                    good = False
+                        if good is None and depth < 2:
+                            # unguarded here: the enclosing helper must not advance before the call and must itself be called under the guard
+                            adv = [x for x in gg.calls() if (x.e.get('callee') or '') in ('advance', 'match') and gg.can_follow(x, ev2) and x is not ev2]
+                            good = (not adv) and sites_non_eof(g2['q'], depth + 1)[0]
+                        if not good:
+                            return False, total
+                        total += 1
+                    return True, total
+                okc, ncs = sites_non_eof(f['q'])
+                cs = [None] * ncs
                 B.check(okc, inst, 'all %d call sites are in non-EOF cases of switch(lookahead(es)) with no advance in between' % len(cs),
                         'tokens[tok_pos] may be evaluated at end of input', where)
                 continue
             if o.get('k') == 'bin' and o['op'] == '-' and field_chain(o['l'])[1] == ['tok_pos']:
                 g = g or M.cfg(f)
                 ev = g.ev(e)
-                okm = any(label is True and is_call(strip_casts(cond), 'match') for cond, label, cn in g.guards_of(ev))
+                from .genrules import guard_implies
+                okm = any(isinstance(label, bool) and guard_implies(cond, label, lambda z: is_call(z, 'match'), True) for cond, label, cn in g.guards_of(ev))
                 B.check(okm, inst, 'tok_pos-1 under a successful match (which advanced from a valid index)', 'tok_pos-1 not guarded by a successful match', where)
                 continue
             B.unknown(inst, 'index form not recognised: %s' % show(idx), where)
@@ -264,14 +278,15 @@ def c02(rep, tier):
                 continue
             # tabled exception?
             hit = None
+            lapsed = None
             for x in exc:
-                if x['function'] == f['q'] and x['construct'] in show(e):
+                xseq = re.sub(r'\.(begin|back|front|pop_back|at|cbegin)\(\)$', '', x['construct'])
+                if x['function'] == f['q'] and (x['construct'] in show(e) or xseq == show(seq).replace('this->', '')):
                     ok, detail = verify_exception(x, M, lib, f, e)
                     if ok:
                         hit = (x, detail)
                     else:
-                        Cc.violation(inst, 'exception lapsed: %s' % detail, where)
-                        hit = False
+                        lapsed = detail
             if hit:
                 used_exc.add((hit[0]['function'], hit[0]['construct']))
                 Cc.ok(inst, 'accepted (spec/exceptions.json, re-verified): %s [%s]' % (hit[0]['reason'], hit[1]), where)
@@ -282,7 +297,7 @@ def c02(rep, tier):
                                  witness={'sequence': show(seq), 'path': wit})
                 else:
                     Cc.unknown(inst, 'cannot show %s non-empty here and cannot exhibit a path on which it is empty (no dominating push, guard, '
-                                     'enclosing iteration or reasoned exception)' % show(seq), where)
+                                     'enclosing iteration or reasoned exception%s)' % (show(seq), ('; the tabled exception no longer verifies: ' + lapsed) if lapsed else ''), where)
 
     # ------------------------------------------------------------------ d: resources
     D = rep.rule('C02.d', 'every allocation belongs to a recognised ownership scheme and is released on all paths', floor=8)
@@ -699,51 +714,60 @@ def value_leaves(M, f, e, depth=0):
 
 def token_positions_rule(F, M, lib):
     """tokens synthesised by the scanner driver take their position from a scanned token or the placeholder"""
-    scan = lib.fn('Theo::scan')
-    g = M.cfg(scan)
-    for e in walk_all_exprs(scan['body']):
-        cons = None
-        if e.get('k') == 'construct' and e.get('rec') == 'Theo::Token' and len(e['args']) == 4:
-            cons = (e['args'][2], e['args'][3])
-        elif e.get('k') == 'init' and e.get('rec') == 'Theo::Token':
-            fl = dict(e['fields'])
-            cons = (fl.get('file'), fl.get('line'))
-        if cons is None:
-            continue
-        where = '%s:%d' % (rel(lib, scan['file']), e['loc'][0])
-        inst = 'scan: synthesised token %s' % show(e)[:50]
-        bad = []
-        unk = []
-        for leaf in value_leaves(M, scan, cons[0]):
-            txt = show(leaf)
-            if leaf.get('k') == 'str':
-                if leaf['v'] != '-':
-                    bad.append('file name literal "%s"' % leaf['v'])
-            elif leaf.get('k') == 'member' and leaf['name'] in ('file', 'f', 'filename'):
-                pass
-            elif leaf.get('k') == 'ref' and leaf.get('dk') == 'param':
-                ev = g.ev(e)
-                from .genrules import guarded
-                if not guarded(g, ev, lambda c: (c.get('callee') or '').endswith('::contains') and leaf['name'] in show(c), True):
-                    bad.append('the caller-supplied name %s, which need not be a supplied file (e.g. a missing main file)' % leaf['name'])
-            else:
-                unk.append(txt)
-        for leaf in value_leaves(M, scan, cons[1]):
-            if leaf.get('k') == 'member' and leaf['name'] == 'line':
-                continue
-            v = leaf.get('v') if leaf.get('k') == 'int' else (-leaf['e']['v'] if leaf.get('k') == 'un' and leaf['op'] == '-' and leaf['e'].get('k') == 'int' else None)
-            if v == -1:
-                continue
-            if v is not None:
-                bad.append('line literal %d' % v)
-            else:
-                unk.append(show(leaf))
-        if bad:
-            F.violation(inst, 'position taken from %s: errors reported at this token name a location that is neither in a supplied file nor the "-"/-1 placeholder' % '; '.join(bad), where)
-        elif unk:
-            F.unknown(inst, 'cannot classify position source(s) %s' % unk, where)
-        else:
-            F.ok(inst, 'position copied from a scanned token or the "-"/-1 placeholder', where)
+    scan0 = lib.fn('Theo::scan')
+    # tokens are synthesised in scan() itself or in a helper scan() calls
+    makers = [scan0]
+    for x in walk_all_exprs(scan0['body']):
+        if x.get('k') == 'call' and x.get('callee_in_repo') and x.get('obj') is None:
+            h = lib.fn(x.get('callee'), optional=True)
+            if h is not None and h.get('body') is not None and h not in makers and h['file'] == scan0['file'] and \
+                    any(y.get('k') in ('construct', 'init') and y.get('rec') == 'Theo::Token' for y in walk_all_exprs(h['body'])):
+                makers.append(h)
+    for scan in makers:
+      g = M.cfg(scan)
+      for e in walk_all_exprs(scan['body']):
+          cons = None
+          if e.get('k') == 'construct' and e.get('rec') == 'Theo::Token' and len(e['args']) == 4:
+              cons = (e['args'][2], e['args'][3])
+          elif e.get('k') == 'init' and e.get('rec') == 'Theo::Token':
+              fl = dict(e['fields'])
+              cons = (fl.get('file'), fl.get('line'))
+          if cons is None:
+              continue
+          where = '%s:%d' % (rel(lib, scan['file']), e['loc'][0])
+          inst = 'scan: synthesised token %s' % show(e)[:50]
+          bad = []
+          unk = []
+          for leaf in value_leaves(M, scan, cons[0]):
+              txt = show(leaf)
+              if leaf.get('k') == 'str':
+                  if leaf['v'] != '-':
+                      bad.append('file name literal "%s"' % leaf['v'])
+              elif leaf.get('k') == 'member' and leaf['name'] in ('file', 'f', 'filename'):
+                  pass
+              elif leaf.get('k') == 'ref' and leaf.get('dk') == 'param':
+                  ev = g.ev(e)
+                  from .genrules import guarded
+                  if not guarded(g, ev, lambda c: (c.get('callee') or '').endswith('::contains') and leaf['name'] in show(c), True):
+                      bad.append('the caller-supplied name %s, which need not be a supplied file (e.g. a missing main file)' % leaf['name'])
+              else:
+                  unk.append(txt)
+          for leaf in value_leaves(M, scan, cons[1]):
+              if leaf.get('k') == 'member' and leaf['name'] == 'line':
+                  continue
+              v = leaf.get('v') if leaf.get('k') == 'int' else (-leaf['e']['v'] if leaf.get('k') == 'un' and leaf['op'] == '-' and leaf['e'].get('k') == 'int' else None)
+              if v == -1:
+                  continue
+              if v is not None:
+                  bad.append('line literal %d' % v)
+              else:
+                  unk.append(show(leaf))
+          if bad:
+              F.violation(inst, 'position taken from %s: errors reported at this token name a location that is neither in a supplied file nor the "-"/-1 placeholder' % '; '.join(bad), where)
+          elif unk:
+              F.unknown(inst, 'cannot classify position source(s) %s' % unk, where)
+          else:
+              F.ok(inst, 'position copied from a scanned token or the "-"/-1 placeholder', where)
 
 
 def is_clamp(e, lib=None, depth=0):
@@ -772,7 +796,7 @@ def is_clamp(e, lib=None, depth=0):
     return show(strip_casts(c['l'])) == show(t) and show(strip_casts(c['r'])) == show(el) and 'size() - 1' in show(el)
 
 
-def nonempty_reason(M, lib, f, g, ev, seq, k_needed, _depth=0):
+def nonempty_reason(M, lib, f, g, ev, seq, k_needed, _depth=0, _stack=()):
     """structural argument that `seq` has at least k_needed elements at ev"""
     sname = show(seq)
     # J2': guard by an enclosing conditional expression  seq.empty() ? ... : seq.back()
@@ -864,8 +888,26 @@ def nonempty_reason(M, lib, f, g, ev, seq, k_needed, _depth=0):
     # J4: the sequence is a reference parameter, every caller passes a sequence that is non-empty at the call, and nothing
     #     removes elements between the entry of this function and the use
     s0 = strip_casts(seq)
-    if s0 is not None and s0.get('k') == 'ref' and s0.get('dk') == 'param' and _depth < 2:
-        pidx = [i for i, p in enumerate(f['params']) if p.get('d') == s0.get('d') and '&' in (p.get('cty') or '')]
+    root0, path0 = member_path(s0) if s0 is not None and s0.get('k') == 'member' else (s0, [])
+    root0 = strip_casts(root0) if root0 is not None else None
+    if root0 is not None and root0.get('k') == 'ref' and root0.get('dk') == 'param' and (f['q'], sname) in _stack:
+        # a recursive call chain: the claim for this function is what is being established (every function on the chain is
+        # checked for removals before its use, and every entry from outside the cycle is checked at its call site)
+        return 'holds on entry (recursive chain)'
+    if root0 is not None and root0.get('k') == 'ref' and root0.get('dk') == 'param' and _depth < 6:
+        pidx = [i for i, p in enumerate(f['params']) if p.get('d') == root0.get('d') and '&' in (p.get('cty') or '')]
+
+        def rebase(arg):
+            # the same member chain, rooted at the caller's argument
+            def sub(x):
+                if x is root0 or (isinstance(x, dict) and x.get('k') == 'ref' and x.get('d') == root0.get('d') and x.get('sid') == root0.get('sid')):
+                    return strip_casts(arg)
+                if isinstance(x, dict):
+                    return {k2: sub(v2) for k2, v2 in x.items()}
+                if isinstance(x, list):
+                    return [sub(y) for y in x]
+                return x
+            return sub(s0)
         rm = [x for x in g.calls() if (x.e.get('callee') or '').split('::')[-1] in ('pop_back', 'clear', 'erase', 'resize') and x.e.get('obj') is not None and
               show(strip_casts(x.e['obj'])) == sname and g.can_follow(x, ev) and x is not ev]
         if pidx and not rm:
@@ -877,7 +919,7 @@ def nonempty_reason(M, lib, f, g, ev, seq, k_needed, _depth=0):
                     reasons = []
                     break
                 gg = M.cfg(g2)
-                r = nonempty_reason(M, lib, g2, gg, gg.ev(c2), strip_casts(c2['args'][pidx[0]]), k_needed, _depth + 1)
+                r = nonempty_reason(M, lib, g2, gg, gg.ev(c2), rebase(c2['args'][pidx[0]]), k_needed, _depth + 1, _stack + ((f['q'], sname),))
                 if r is None:
                     reasons = []
                     break
@@ -1006,7 +1048,11 @@ def verify_exception(x, M, lib, f, e):
         g2 = f
         gg = M.cfg(g2)
         ev = gg.ev(e)
-        ok = any(label is True and 'gen_res.empty()' in show(cond).replace('this->', '') and show(cond).startswith('!') for cond, label, cn in gg.guards_of(ev))
+        from .genrules import guard_implies
+
+        def gen_empty(z):
+            return is_call(z, '::empty') and 'gen_res' in show(z.get('obj') or {})
+        ok = any(isinstance(label, bool) and guard_implies(cond, label, gen_empty, False) for cond, label, cn in gg.guards_of(ev))
         return ok, 'evaluated only under !gen_res.empty()'
     if v == 'macro_pushed_before_definition_body':
         # callers of push_rule/push_replacement are D/MD/A; D is called only from S after push_macro; MD/A only from D/MD/A
